@@ -3,6 +3,7 @@ package props
 import (
 	"errors"
 	"fmt"
+	"os"
 	"regexp"
 	"runtime/debug"
 	"strings"
@@ -78,6 +79,12 @@ type OpSpec struct {
 	IdleUS    int64          `json:"idle_us,omitempty"`
 	// Lines is the expected result (normalised output lines) of a send, by construction.
 	Lines [][]string `json:"lines,omitempty"`
+	// WantFail (C13): per command, whether its output carries a failure string in force.
+	WantFail []bool `json:"want_fail,omitempty"`
+	// Marks (C12): per event, the literal text in the device's answer that ends the expected
+	// response; EarlyAt > 0: the dialogue ends after that many events (completion pattern).
+	Marks   []string `json:"marks,omitempty"`
+	EarlyAt int      `json:"early_at,omitempty"`
 	// ResumeAfterUS > 0: a helper makes the device catch up this long after the op started.
 	ResumeAfterUS int64 `json:"resume_after_us,omitempty"`
 }
@@ -91,6 +98,7 @@ type DevSpec struct {
 	Seed     uint64       `json:"seed"`
 	Noise    []string     `json:"noise,omitempty"`
 	NoisePct int          `json:"noise_pct,omitempty"`
+	DelayUS  int64        `json:"delay_max_us,omitempty"` // device pauses up to this long before replies/prompts
 }
 
 // Session is the scenario type of the session-based properties.
@@ -125,6 +133,8 @@ type Session struct {
 	Holds []HoldSpec `json:"holds,omitempty"`
 	State string     `json:"state,omitempty"` // C07: connection state at the time of Close
 	Plan  *LoginPlan `json:"plan,omitempty"`  // C10: the reference for the login dialogue
+	Ex    []string   `json:"ex,omitempty"`    // C12: escalation outcomes per authenticated edge
+	Sub   string     `json:"sub,omitempty"`   // C11: which generator the scenario came from
 }
 
 // HoldSpec deschedules goroutines of role Base for DurUS after they pass Point, with
@@ -138,17 +148,19 @@ type HoldSpec struct {
 
 // OpRec is what one operation did.
 type OpRec struct {
-	Kind     string
-	Start    time.Duration
-	End      time.Duration
-	Err      error
-	Class    string
-	Result   string
-	Results  []string
-	Failed   bool
-	FailedN  []bool
-	Panicked bool
-	Skipped  bool
+	Kind    string
+	Start   time.Duration
+	End     time.Duration
+	Err     error
+	Class   string
+	Result  string
+	Results []string
+	Failed  bool
+	FailedN []bool
+	// FailedInputs lists the inputs named by a MultiOperationError (nil if none)
+	FailedInputs []string
+	Panicked     bool
+	Skipped      bool
 	// snapshot of the world when the op returned
 	DeliveredAtEnd int
 	LastByteAtEnd  time.Duration
@@ -235,6 +247,7 @@ func buildDevice(ds *DevSpec) *peer.CLI {
 	}
 	d.Noise = ds.Noise
 	d.NoisePct = ds.NoisePct
+	d.DelayMax = Micro(ds.DelayUS)
 
 	return d
 }
@@ -472,6 +485,12 @@ func (sr *SessionRun) do(env *Env, op *OpSpec, o []util.Option, rec *OpRec) {
 		rec.Err = err
 		if m != nil {
 			rec.Failed = m.Failed != nil
+			var me *response.MultiOperationError
+			if errors.As(m.Failed, &me) {
+				for _, o := range me.Operations {
+					rec.FailedInputs = append(rec.FailedInputs, o.Input)
+				}
+			}
 			for _, r := range m.Responses {
 				rec.Results = append(rec.Results, r.Result)
 				rec.FailedN = append(rec.FailedN, r.Failed != nil)
@@ -551,6 +570,22 @@ func (sr *SessionRun) do(env *Env, op *OpSpec, o []util.Option, rec *OpRec) {
 		multi(n.SendCommands(op.Cmds, o...))
 	case "netconfigs":
 		multi(n.SendConfigs(op.Cmds, o...))
+	case "sendfile", "netsendfile", "netconfigsfile":
+		f, err := os.CreateTemp("", "vsim-cmds-*.txt")
+		if err != nil {
+			panic(err)
+		}
+		_, _ = f.WriteString(strings.Join(op.Cmds, "\n") + "\n")
+		_ = f.Close()
+		defer os.Remove(f.Name())
+		switch op.Kind {
+		case "sendfile":
+			multi(g.SendCommandsFromFile(f.Name(), o...))
+		case "netsendfile":
+			multi(n.SendCommandsFromFile(f.Name(), o...))
+		default:
+			multi(n.SendConfigsFromFile(f.Name(), o...))
+		}
 	case "netconfig":
 		single(n.SendConfig(strings.Join(op.Cmds, "\n"), o...))
 	case "netinteractive":
